@@ -8,17 +8,26 @@
 //! the application does that writes to the transport (final and provisional answers, send_request /
 //! send_invite) runs in a task of its own, so the following messages of the history arrive WHILE that write
 //! is in progress (a response can reach the endpoint before send_request has returned).
+//! Who owns the server transaction is varied too: a request is either taken by the application's layer (held
+//! until an answer event) or left alone by every layer, in which case the endpoint answers it by itself (481)
+//! and copies / the ACK must be absorbed by THAT transaction. Client transactions advertise the transport's
+//! own address or a different sent-by in their Via (`TargetTransportInfo::via_host_port`: unrelated IPv4
+//! host:port, other port, host name with / without port, IPv6 reference); the peer echoes the Via as is or
+//! with `received` / `rport` added. Every peer message arrives by one of four paths: the usual one, another
+//! source port, another source IP, another local transport of the endpoint.
 //! Oracle: symbolic reference model of RFC 3261 17.1.3 / 17.2.3 (identifier equality only) that predicts which
 //! requests the layers are shown, in which order, and which responses each client transaction's receive()
-//! yields.
+//! yields. Matching is by the identifiers in the message only: neither the advertised sent-by of a client
+//! transaction, nor extra Via parameters, nor the source address / local transport a message arrives by, nor
+//! who created the server transaction, enter the prediction.
 //! Not asserted: arrivals on a transaction's end-of-life edge (see `assumptions`); whether a request whose
 //! Request-Line method differs from its CSeq method is ITSELF shown to the layers or absorbed (RFC 3261 matches
 //! on the request method, ezk keys on the CSeq method, the statement is silent) — asserted is only that such a
 //! message (never with an ACK line) neither starts nor ends a transaction, i.e. every well-formed message
-//! after it is treated as if it had not arrived; what goes on the wire (retransmitted responses).
+//! after it is treated as if it had not arrived; what goes on the wire (retransmitted responses, the status the
+//! endpoint answers an untaken request with, which transport a response leaves on).
 
 use super::c05::Res;
-use super::c06::ChannelLayer;
 use crate::engine::*;
 use crate::refmodel::ref_tsx::{T2, T4, TIMEOUT};
 use crate::world::*;
@@ -27,6 +36,7 @@ use proptest::prelude::*;
 use serde::{Deserialize, Serialize};
 use sip_core::transport::TargetTransportInfo;
 use sip_core::{IncomingRequest, Request};
+use sip_types::host::{Host, HostPort};
 use sip_types::uri::sip::SipUri;
 use sip_types::{Code, Method, Name};
 use std::collections::HashMap;
@@ -57,6 +67,62 @@ pub struct ReqEv {
     /// non-ACK method (`line_method`) while CSeq still says `method` — a "mismatched" request
     #[serde(default)]
     pub line: u8,
+    /// 0: the application's layer takes the request (and holds it until it answers); k > 0: NO layer takes it,
+    /// the endpoint answers it by itself (481 through a server transaction of its own). Ignored for
+    /// mismatched requests (always taken and dropped).
+    #[serde(default)]
+    pub take: u8,
+    /// path the datagram arrives by (see `PATHS`): 0 the usual one; 1 from another source port of the peer;
+    /// 2 from another source IP; 3 on another local transport of the endpoint
+    #[serde(default)]
+    pub path: u8,
+}
+
+/// number of arrival paths (ReqEv::path, Ev::Resp::path)
+const PATHS: u8 = 4;
+
+/// what a client transaction advertises as sent-by of its Via (`TargetTransportInfo::via_host_port`):
+/// 0: nothing (the transport's own sent_by()); then an IPv4 host:port unrelated to the transport (NAT-mapped
+/// public address), the transport's IP with another port, a host name without / with port, the transport's
+/// own address spelled out, an IPv6 reference
+const ADVERTISED: &[Option<(&str, Option<u16>)>] = &[
+    None,
+    Some(("203.0.113.7", Some(40000))),
+    Some(("10.0.0.1", Some(5099))),
+    Some(("gw.example.org", None)),
+    Some(("gw.example.org", Some(5060))),
+    Some(("10.0.0.1", Some(5060))),
+    Some(("2001:db8::7", Some(5060))),
+];
+
+/// address of the transport the client transactions send on
+const LOCAL: (&str, u16) = ("10.0.0.1", 5060);
+/// a second transport of the endpoint
+const LOCAL2: &str = "10.0.0.2:5070";
+
+/// the advertised sent-by is not what the transport itself would have inserted
+fn foreign_via(via: u8) -> bool {
+    matches!(ADVERTISED[via as usize % ADVERTISED.len()], Some(hp) if hp != (LOCAL.0, Some(LOCAL.1)))
+}
+
+/// source address of a datagram of the peer arriving by `path`
+fn source_of(path: u8) -> SocketAddr {
+    match path % PATHS {
+        1 => "192.0.2.9:6060",
+        2 => "192.0.2.77:5060",
+        _ => "192.0.2.9:5060",
+    }
+    .parse()
+    .unwrap()
+}
+
+fn advertised(via: u8) -> Option<HostPort> {
+    let (host, port) = ADVERTISED[via as usize % ADVERTISED.len()]?;
+    let host = match host.parse::<std::net::IpAddr>() {
+        Ok(ip) => Host::from(ip),
+        Err(_) => Host::Name(host.into()),
+    };
+    Some(HostPort { host, port })
 }
 
 /// Request-Line methods of mismatched requests (never ACK: an ACK line can legitimately end an INVITE transaction)
@@ -81,11 +147,28 @@ pub enum Ev {
     Req(ReqEv),
     /// application answers one of the requests it holds: kind 0 provisional, 1 2xx, 2 failure
     Answer { sel: u16, kind: u8 },
-    /// application sends a request (client transaction) in a slot
-    Send { slot: u8, method: u8 },
-    /// peer sends a response derived from the slot's request: branch 0 same / 1 other slot's / 2 mangled;
-    /// cseq_method 0 same / 1 different
-    Resp { slot: u8, branch: u8, cseq_method: u8, code: u16 },
+    /// application sends a request (client transaction) in a slot; `via` selects what it advertises as
+    /// sent-by of its Via (`ADVERTISED`)
+    Send {
+        slot: u8,
+        method: u8,
+        #[serde(default)]
+        via: u8,
+    },
+    /// peer sends a response derived from the slot's request (all Via values echoed): branch 0 same / 1 other
+    /// slot's / 2 mangled; cseq_method 0 same / 1 different; `path` the way it arrives (like ReqEv::path);
+    /// `decor` 0: Via echoed as is, 1: `;received=` appended, 2: `;rport=..;received=..` appended (what a
+    /// UAS does when the source of the request is not the sent-by)
+    Resp {
+        slot: u8,
+        branch: u8,
+        cseq_method: u8,
+        code: u16,
+        #[serde(default)]
+        path: u8,
+        #[serde(default)]
+        decor: u8,
+    },
 }
 
 #[derive(Serialize, Deserialize, Clone, Debug, Hash)]
@@ -104,6 +187,16 @@ const SLOW_MS: u64 = 2;
 
 const GAPS: &[u64] = &[1, 1, 7, 100, 501, T4 - 4, T4 + 4, 31_996, 32_004, 31_996, 32_004, TIMEOUT + T2 + 20];
 
+/// arrival path of a datagram: mostly the usual one
+fn path_strategy() -> impl Strategy<Value = u8> {
+    prop_oneof![5 => Just(0u8), 1 => Just(1u8), 1 => Just(2u8), 1 => Just(3u8)]
+}
+
+/// what a client transaction advertises in its Via: a third of the time the transport's own address
+fn via_strategy() -> impl Strategy<Value = u8> {
+    prop_oneof![3 => Just(0u8), 6 => 1u8..(ADVERTISED.len() as u8)]
+}
+
 pub fn strategy() -> BoxedStrategy<Case> {
     let req = (
         prop_oneof![
@@ -118,17 +211,21 @@ pub fn strategy() -> BoxedStrategy<Case> {
         prop_oneof![4 => Just(0u8), 1 => Just(1u8)],
         // Request-Line method differs from the CSeq method
         prop_oneof![7 => Just(0u8), 1 => 1u8..7],
+        // no layer takes the request (the endpoint answers it by itself)
+        prop_oneof![4 => Just(0u8), 1 => Just(1u8)],
+        path_strategy(),
     )
-        .prop_map(|(branch, method, call_id, from_tag, cseq, sent_by, line)| {
-            Ev::Req(ReqEv { branch, method, call_id, from_tag, cseq, sent_by, line })
+        .prop_map(|(branch, method, call_id, from_tag, cseq, sent_by, line, take, path)| {
+            Ev::Req(ReqEv { branch, method, call_id, from_tag, cseq, sent_by, line, take, path })
         });
     let ev = prop_oneof![
         6 => req,
         3 => (any::<u16>(), 0u8..3).prop_map(|(sel, kind)| Ev::Answer { sel, kind }),
-        2 => (0u8..2, 0u8..3).prop_map(|(slot, method)| Ev::Send { slot, method }),
+        2 => (0u8..2, 0u8..3, via_strategy()).prop_map(|(slot, method, via)| Ev::Send { slot, method, via }),
         4 => (0u8..2, prop_oneof![3 => Just(0u8), 1 => Just(1u8), 1 => Just(2u8)], prop_oneof![3 => Just(0u8), 1 => Just(1u8)],
-              prop_oneof![Just(100u16), Just(180u16), Just(200u16), Just(404u16), Just(603u16)])
-            .prop_map(|(slot, branch, cseq_method, code)| Ev::Resp { slot, branch, cseq_method, code }),
+              prop_oneof![Just(100u16), Just(180u16), Just(200u16), Just(404u16), Just(603u16)],
+              path_strategy(), prop_oneof![3 => Just(0u8), 1 => Just(1u8), 1 => Just(2u8)])
+            .prop_map(|(slot, branch, cseq_method, code, path, decor)| Ev::Resp { slot, branch, cseq_method, code, path, decor }),
     ];
     (
         prop_oneof![3 => Just(false), 1 => Just(true)],
@@ -168,9 +265,13 @@ pub fn lifecycle_strategy() -> BoxedStrategy<Case> {
             3 => Just(None),
             2 => (1u8..7, any::<bool>(), any::<bool>(), prop_oneof![Just(1u64), Just(40u64)]).prop_map(Some),
         ],
+        // the base request is left alone by the layers (answered by the endpoint itself, the application's
+        // answer event then finds nothing to answer); arrival path of the copies; advertised Via of the client
+        // transaction; arrival path and Via decoration of the responses
+        (prop_oneof![3 => Just(0u8), 1 => Just(1u8)], path_strategy(), via_strategy(), path_strategy(), 0u8..3),
     )
-        .prop_map(|(reliable, (b, m, kind, g1), g2, (vary, ack), (cm, code, g3), g4, (rb, rc, code2), rng, mid, flood, probe)| {
-            let base = ReqEv { branch: BranchSym::Peer(b), method: m, call_id: 0, from_tag: 0, cseq: 0, sent_by: 0, line: 0 };
+        .prop_map(|(reliable, (b, m, kind, g1), g2, (vary, ack), (cm, code, g3), g4, (rb, rc, code2), rng, mid, flood, probe, (take, qpath, via, rpath, decor))| {
+            let base = ReqEv { branch: BranchSym::Peer(b), method: m, call_id: 0, from_tag: 0, cseq: 0, sent_by: 0, line: 0, take, path: 0 };
             let probe_ev = |line: u8, as_ack: bool| {
                 Ev::Req(ReqEv { line, method: if m == 0 && as_ack { 4 } else { m }, ..base.clone() })
             };
@@ -201,19 +302,20 @@ pub fn lifecycle_strategy() -> BoxedStrategy<Case> {
                 g2 -= pg;
             }
             if let Some(mg) = mid.filter(|mg| *mg + 10 < g2 && !(ack && m == 0)) {
-                events.push((mg, Ev::Req(base.clone())));
+                events.push((mg, Ev::Req(ReqEv { path: qpath, ..base.clone() })));
                 g2 -= mg;
             }
             if ack && m == 0 {
                 // (1 ms: while the answer is still being written on a slow transport)
                 events.push((if rng % 4 < 2 { 1 } else { 50 }, Ev::Req(ReqEv { method: 4, ..base.clone() })));
             }
+            copy.path = qpath;
             events.push((g2, Ev::Req(copy.clone())));
             events.push((1, Ev::Req(base)));
-            events.push((3, Ev::Send { slot: 0, method: cm }));
-            events.push((g3, Ev::Resp { slot: 0, branch: 0, cseq_method: 0, code }));
-            events.push((g4, Ev::Resp { slot: 0, branch: rb, cseq_method: rc, code: code2 }));
-            events.push((1, Ev::Resp { slot: 0, branch: 0, cseq_method: 0, code: code2 }));
+            events.push((3, Ev::Send { slot: 0, method: cm, via }));
+            events.push((g3, Ev::Resp { slot: 0, branch: 0, cseq_method: 0, code, path: rpath, decor }));
+            events.push((g4, Ev::Resp { slot: 0, branch: rb, cseq_method: rc, code: code2, path: 0, decor: 0 }));
+            events.push((1, Ev::Resp { slot: 0, branch: 0, cseq_method: 0, code: code2, path: rpath, decor }));
             Case { reliable, events, slow_send: rng % 2 == 0, rng }
         })
         .boxed()
@@ -260,6 +362,10 @@ struct STsx {
     invite: bool,
     marker: String,
     state: SState,
+    /// created by the endpoint itself for a request no layer took
+    auto: bool,
+    /// arrival path of the request that created it
+    path: u8,
 }
 
 #[derive(Clone, Debug, PartialEq)]
@@ -277,6 +383,8 @@ struct CSlot {
     method: &'static str,
     sent_at: u64,
     state: CState,
+    /// index into ADVERTISED
+    via: u8,
 }
 
 /// concrete action for the world to execute
@@ -284,8 +392,8 @@ struct CSlot {
 pub enum Act {
     Req { marker: String, ev: ReqEv },
     Answer { marker: String, kind: u8, invite: bool },
-    Send { slot: u8, method: &'static str },
-    Resp { marker: String, slot: u8, branch: u8, cseq_method: u8, code: u16 },
+    Send { slot: u8, method: &'static str, via: u8 },
+    Resp { marker: String, slot: u8, branch: u8, cseq_method: u8, code: u16, path: u8, decor: u8 },
     Nop,
 }
 
@@ -304,6 +412,16 @@ pub struct Prediction {
     pub probe_hit: bool,
     /// a response arrived while the write of the request it answers was still in progress
     pub resp_during_send: bool,
+    /// a request no layer takes was shown to the layers (the endpoint answers it by itself)
+    pub untaken: bool,
+    /// a request / ACK met the live server transaction the endpoint had created by itself for an untaken request
+    pub auto_hit: bool,
+    /// a request met a live server transaction whose first request had arrived by another path
+    pub req_other_path: bool,
+    /// a response was delivered to a client transaction that advertises a sent-by other than the transport's own
+    pub advertised_via: bool,
+    /// a response was delivered that arrived by another path than the request left on
+    pub resp_other_path: bool,
 }
 
 fn near(t: u64, edge: u64) -> bool {
@@ -317,13 +435,14 @@ pub fn predict(case: &Case) -> Prediction {
     let mut cutoff = None;
     let mut stsx: Vec<STsx> = vec![];
     let mut slots = [
-        CSlot { method: "OPTIONS", sent_at: 0, state: CState::Unsent },
-        CSlot { method: "OPTIONS", sent_at: 0, state: CState::Unsent },
+        CSlot { method: "OPTIONS", sent_at: 0, state: CState::Unsent, via: 0 },
+        CSlot { method: "OPTIONS", sent_at: 0, state: CState::Unsent, via: 0 },
     ];
     let mut near_miss = false;
     let mut near_edge = false;
     let mut probe_hit = false;
     let mut resp_during_send = false;
+    let (mut untaken, mut auto_hit, mut req_other_path, mut advertised_via, mut resp_other_path) = (false, false, false, false, false);
     let mut seen_keys: Vec<RefKey> = vec![];
     let mut t = 0u64;
 
@@ -335,14 +454,15 @@ pub fn predict(case: &Case) -> Prediction {
         match ev {
             Ev::Req(r) => {
                 let method = SERVER_METHODS[r.method as usize % SERVER_METHODS.len()];
-                let marker = format!("q{i}");
+                // ("u..": the layer leaves it alone; the copy of a request is absorbed whatever its marker says)
+                let marker = if r.take != 0 && r.line == 0 { format!("u{i}") } else { format!("q{i}") };
                 // a client-slot branch that does not exist yet is just another unknown branch
                 let branch = match r.branch {
                     BranchSym::Client(s) if slots[s as usize % 2].state == CState::Unsent => BranchSym::Peer(0),
                     BranchSym::Client(s) => BranchSym::Client(s % 2),
                     b => b,
                 };
-                let r = ReqEv { branch, ..r.clone() };
+                let r = ReqEv { branch, path: r.path % PATHS, ..r.clone() };
                 if let Some(line) = line_method(&r) {
                     // Mismatched request. RFC 3261 17.2.3 matches on the request method, ezk keys on the CSeq
                     // method; the statement does not say which, so whether this message itself is shown to the
@@ -427,6 +547,10 @@ pub fn predict(case: &Case) -> Prediction {
                 match hit {
                     Some(idx) => {
                         let s = &mut stsx[idx];
+                        // (17.2.3 matches on identifiers of the message only: neither the source address nor
+                        // the local transport it arrives on, nor who created the transaction, matter)
+                        auto_hit |= s.auto;
+                        req_other_path |= s.path != r.path;
                         if method == "ACK" && s.state == SState::Accepted {
                             // ACK for a 2xx: rejected by the transaction's filter, shown to the layers
                             surfaced.push(marker.clone());
@@ -447,13 +571,22 @@ pub fn predict(case: &Case) -> Prediction {
                     }
                     None => {
                         surfaced.push(marker.clone());
+                        let auto = r.take != 0;
+                        untaken |= auto;
                         if method != "ACK" {
-                            stsx.push(STsx {
-                                key,
-                                invite: method == "INVITE",
-                                marker: marker.clone(),
-                                state: SState::Pending { queued_ack: false },
-                            });
+                            // No layer takes it: the endpoint answers 481 at once through a server transaction
+                            // of its own, which from then on behaves like one the application answered with a
+                            // failure at this instant. (An untaken ACK is just dropped.)
+                            let state = if !auto {
+                                SState::Pending { queued_ack: false }
+                            } else if method == "INVITE" {
+                                SState::InvFailed { at: t }
+                            } else if case.reliable {
+                                SState::Answered { until: t }
+                            } else {
+                                SState::Answered { until: t + TIMEOUT }
+                            };
+                            stsx.push(STsx { key, invite: method == "INVITE", marker: marker.clone(), state, auto, path: r.path });
                         }
                     }
                 }
@@ -501,17 +634,18 @@ pub fn predict(case: &Case) -> Prediction {
                 }
                 script.push((t, Act::Answer { marker: s.marker.clone(), kind: kind % 3, invite: s.invite }));
             }
-            Ev::Send { slot, method } => {
+            Ev::Send { slot, method, via } => {
                 let sl = (*slot % 2) as usize;
                 if slots[sl].state != CState::Unsent {
                     script.push((t, Act::Nop));
                     continue;
                 }
                 let m = CLIENT_METHODS[*method as usize % CLIENT_METHODS.len()];
-                slots[sl] = CSlot { method: m, sent_at: t, state: CState::Init };
-                script.push((t, Act::Send { slot: sl as u8, method: m }));
+                let via = *via % ADVERTISED.len() as u8;
+                slots[sl] = CSlot { method: m, sent_at: t, state: CState::Init, via };
+                script.push((t, Act::Send { slot: sl as u8, method: m, via }));
             }
-            Ev::Resp { slot, branch, cseq_method, code } => {
+            Ev::Resp { slot, branch, cseq_method, code, path, decor } => {
                 let sl = (*slot % 2) as usize;
                 if slots[sl].state == CState::Unsent {
                     script.push((t, Act::Nop));
@@ -580,6 +714,13 @@ pub fn predict(case: &Case) -> Prediction {
                     if case.slow_send && s.state == CState::Init && t < s.sent_at + SLOW_MS {
                         resp_during_send = true;
                     }
+                    // (17.1.3 matches on branch and CSeq method only: what the Via advertises as sent-by, extra
+                    // Via parameters the peer added, the source address and the local transport it arrives on
+                    // do not matter)
+                    if matches!(s.state, CState::Init | CState::Proceeding | CState::Accepted { .. }) {
+                        advertised_via |= foreign_via(s.via);
+                        resp_other_path |= *path % PATHS != 0;
+                    }
                     match s.state.clone() {
                         CState::Init | CState::Proceeding => {
                             slot_results[b].push((marker.clone(), false));
@@ -599,11 +740,25 @@ pub fn predict(case: &Case) -> Prediction {
                         _ => {}
                     }
                 }
-                script.push((t, Act::Resp { marker, slot: sl as u8, branch: *branch % 3, cseq_method: *cseq_method % 2, code: *code }));
+                script.push((t, Act::Resp { marker, slot: sl as u8, branch: *branch % 3, cseq_method: *cseq_method % 2, code: *code, path: *path % PATHS, decor: *decor % 3 }));
             }
         }
     }
-    Prediction { script, surfaced, slot_results, cutoff, near_miss, near_edge, probe_hit, resp_during_send }
+    Prediction {
+        script,
+        surfaced,
+        slot_results,
+        cutoff,
+        near_miss,
+        near_edge,
+        probe_hit,
+        resp_during_send,
+        untaken,
+        auto_hit,
+        req_other_path,
+        advertised_via,
+        resp_other_path,
+    }
 }
 
 fn one_component_differs(a: &RefKey, b: &RefKey) -> bool {
@@ -619,6 +774,30 @@ fn one_component_differs(a: &RefKey, b: &RefKey) -> bool {
 
 // ---------------------------------------------------------------------------------------------
 // world
+
+/// The application's layer: every request it is shown is recorded; requests marked "u.." are left alone (no
+/// layer takes them), all others are taken and handed to the test task
+pub struct AppLayer {
+    pub rec: Recorder,
+    pub tx: mpsc::UnboundedSender<IncomingRequest>,
+}
+
+#[async_trait::async_trait]
+impl sip_core::Layer for AppLayer {
+    fn name(&self) -> &'static str {
+        "c04-app"
+    }
+    async fn receive(&self, _endpoint: &sip_core::Endpoint, request: sip_core::MayTake<'_, IncomingRequest>) {
+        self.rec.note(0, &request);
+        let untaken = request
+            .headers
+            .iter()
+            .any(|(n, v)| n.as_print_str().eq_ignore_ascii_case("x-seq") && v.to_string().starts_with('u'));
+        if !untaken {
+            let _ = self.tx.send(request.take());
+        }
+    }
+}
 
 enum Held {
     Fresh(IncomingRequest),
@@ -666,11 +845,13 @@ pub fn run(case: &Case, pred: &Prediction) -> Observed {
     let script = pred.script.clone();
     run_world(rng, |clock| async move {
         let log = WireLog::new(clock);
-        let (tp, _) = mock_datagram_slow(&log, "UDP", false, reliable, "10.0.0.1:5060", if slow { SLOW_MS } else { 0 });
+        let (tp, _) = mock_datagram_slow(&log, "UDP", false, reliable, &format!("{}:{}", LOCAL.0, LOCAL.1), if slow { SLOW_MS } else { 0 });
+        // a second transport of the same kind: messages arriving by path 3 come in here
+        let (tp2, _) = mock_datagram_slow(&log, "UDP", false, reliable, LOCAL2, if slow { SLOW_MS } else { 0 });
         let rec = Recorder::new(clock);
         let (tx, mut rx) = mpsc::unbounded_channel();
         let mut b = offline_builder();
-        b.add_layer(ChannelLayer { rec: rec.clone(), tx });
+        b.add_layer(AppLayer { rec: rec.clone(), tx });
         let endpoint = b.build();
         let peer: SocketAddr = "192.0.2.9:5060".parse().unwrap();
         let mut pending: HashMap<String, IncomingRequest> = HashMap::new();
@@ -706,7 +887,7 @@ pub fn run(case: &Case, pred: &Prediction) -> Observed {
                 Act::Nop => {}
                 Act::Req { marker, ev } => {
                     let bytes = req_bytes(&marker, &ev, &client_branches);
-                    inject(&endpoint, &tp, peer, &bytes);
+                    inject(&endpoint, if ev.path % PATHS == 3 { &tp2 } else { &tp }, source_of(ev.path), &bytes);
                 }
                 Act::Answer { marker, kind, invite } => {
                     drain!();
@@ -780,7 +961,7 @@ pub fn run(case: &Case, pred: &Prediction) -> Observed {
                         }
                     }
                 }
-                Act::Send { slot, method } => {
+                Act::Send { slot, method, via } => {
                     let s = slot as usize;
                     let uri: SipUri = "sip:bob@192.0.2.9:5060".parse().unwrap();
                     let mut request = Request::new(Method::from(method), uri);
@@ -789,7 +970,7 @@ pub fn run(case: &Case, pred: &Prediction) -> Observed {
                     request.headers.insert(Name::CALL_ID, format!("c04-client-{s}"));
                     request.headers.insert(Name::CSEQ, format!("{} {method}", 100 * (s + 1)));
                     request.headers.insert(Name::MAX_FORWARDS, "70");
-                    let mut target = TargetTransportInfo { via_host_port: None, transport: Some((tp.clone(), peer)) };
+                    let mut target = TargetTransportInfo { via_host_port: advertised(via), transport: Some((tp.clone(), peer)) };
                     let results = slot_results[s].clone();
                     let before = log.len();
                     let marker_of = |r: &sip_core::transaction::TsxResponse| -> String {
@@ -844,7 +1025,7 @@ pub fn run(case: &Case, pred: &Prediction) -> Observed {
                         slot_req[s] = Some(m);
                     }
                 }
-                Act::Resp { marker, slot, branch, cseq_method, code } => {
+                Act::Resp { marker, slot, branch, cseq_method, code, path, decor } => {
                     let s = slot as usize;
                     if let Some(req) = &slot_req[s] {
                         let mut req = req.clone();
@@ -857,6 +1038,11 @@ pub fn run(case: &Case, pred: &Prediction) -> Observed {
                         for (n, v) in req.headers.iter_mut() {
                             if n.eq_ignore_ascii_case("via") {
                                 *v = v.replace(&own, &new_branch);
+                                match decor {
+                                    1 => v.push_str(";received=198.51.100.4"),
+                                    2 => v.push_str(";rport=31337;received=198.51.100.4"),
+                                    _ => {}
+                                }
                             }
                             if n.eq_ignore_ascii_case("cseq") && cseq_method == 1 {
                                 let num = v.split_whitespace().next().unwrap_or("1").to_string();
@@ -866,7 +1052,7 @@ pub fn run(case: &Case, pred: &Prediction) -> Observed {
                             }
                         }
                         let bytes = response_text(&req, code, Some("pt"), &[format!("X-Seq: {marker}"), "Contact: <sip:bob@192.0.2.9>".into()]);
-                        inject(&endpoint, &tp, peer, &bytes);
+                        inject(&endpoint, if path % PATHS == 3 { &tp2 } else { &tp }, source_of(path), &bytes);
                     }
                 }
             }
@@ -925,7 +1111,33 @@ pub fn check(case: &Case, out: &mut CaseOut) {
     if pred.resp_during_send {
         out.class("response-while-request-write-in-progress");
     }
-    if pred.near_miss || pred.near_edge || pred.probe_hit || pred.resp_during_send {
+    if pred.untaken {
+        out.class("request-no-layer-takes");
+    }
+    if pred.auto_hit {
+        out.class("copy-or-ack-meets-transaction-of-untaken-request");
+    }
+    if pred.req_other_path {
+        out.class("copy-or-ack-arrives-by-another-path(source/transport)");
+    }
+    if pred.advertised_via {
+        out.class("response-to-client-tsx-advertising-foreign-via");
+    }
+    if pred.resp_other_path {
+        out.class("response-arrives-by-another-path(source/transport)");
+    }
+    if case.events.iter().any(|(_, e)| matches!(e, Ev::Resp { decor, .. } if decor % 3 != 0)) {
+        out.class("response-via-with-received/rport");
+    }
+    if pred.near_miss
+        || pred.near_edge
+        || pred.probe_hit
+        || pred.resp_during_send
+        || pred.auto_hit
+        || pred.req_other_path
+        || pred.advertised_via
+        || pred.resp_other_path
+    {
         // distinct by the normalised event sequence
         out.nontrivial(&(case.reliable, case.slow_send && pred.resp_during_send, &case.events));
     }
@@ -1023,7 +1235,18 @@ pub fn check(case: &Case, out: &mut CaseOut) {
                 (Some(_), _) => "c04.client/response-not-delivered",
                 (None, None) => "c04.client/response-order",
             };
-            out.fail(sig, format!("client slot {s}: receive() yielded {got:?}, reference predicts {want:?}"));
+            let via = case
+                .events
+                .iter()
+                .find_map(|(_, e)| match e {
+                    Ev::Send { slot, via, .. } if (*slot % 2) as usize == s => Some(ADVERTISED[*via as usize % ADVERTISED.len()]),
+                    _ => None,
+                })
+                .flatten();
+            out.fail(
+                sig,
+                format!("client slot {s} (advertised sent-by {via:?}): receive() yielded {got:?}, reference predicts {want:?}"),
+            );
         }
     }
 }
@@ -1032,10 +1255,11 @@ pub fn property() -> Property {
     Property {
         fuzz: vec![],
         id: "C04",
-        rule: "a case = history of 3..12 timed events over a deliberately small alphabet (2 RFC 3261 branches, a cookie-less branch, no branch, the branches of ezk's own client transactions; methods INVITE/OPTIONS/BYE/CANCEL/ACK/PRACK; 2 Call-IDs, From-tags, CSeq numbers, sent-by values; about 1 request in 8 carries a non-ACK Request-Line method that differs from its CSeq method): peer requests, application answers (provisional / 2xx / failure) to held requests, application sends, peer responses whose branch and CSeq method are each equal or different; gaps from a grid bracketing T4, 64*T1 and the INVITE timeout window; in a third to a half of the cases every transport write takes 2 ms and all application writes (answers, send_request/send_invite) run in their own task, so 1 ms gaps put the next message inside a write that has not returned yet (response before send_request returns, copy while a provisional/final answer is written). The lifecycle sub builds request / answer / copy-around-end-of-life histories, optionally with a flood of copies, a mid-life copy, and a mismatched request (line method != CSeq method, CSeq method of the base request or ACK for an INVITE) before or after the answer. A symbolic RFC 3261 17.1.3/17.2.3 reference model predicts for every message: absorbed / shown to layers / delivered to client transaction X / dropped. Non-trivial = two keys differing in exactly one component, a response with foreign branch or CSeq method, an arrival within 5 ms of a transaction's end, a mismatched request meeting a live server transaction with its branch/identifiers, or a response arriving while the write of its request is in progress; distinct by the event sequence.",
+        rule: "a case = history of 3..12 timed events over a deliberately small alphabet (2 RFC 3261 branches, a cookie-less branch, no branch, the branches of ezk's own client transactions; methods INVITE/OPTIONS/BYE/CANCEL/ACK/PRACK; 2 Call-IDs, From-tags, CSeq numbers, sent-by values; about 1 request in 8 carries a non-ACK Request-Line method that differs from its CSeq method): peer requests, application answers (provisional / 2xx / failure) to held requests, application sends, peer responses whose branch and CSeq method are each equal or different; gaps from a grid bracketing T4, 64*T1 and the INVITE timeout window; about 1 request in 5 is left alone by the layer (the endpoint answers it by itself, copies and the ACK must be absorbed by that transaction); two thirds of the client transactions advertise a sent-by other than the transport's own in their Via (6 shapes), 2 responses in 5 carry received/rport in the echoed Via; 3 peer messages in 8 arrive from another source port / source IP / on a second local transport; in a third to a half of the cases every transport write takes 2 ms and all application writes (answers, send_request/send_invite) run in their own task, so 1 ms gaps put the next message inside a write that has not returned yet (response before send_request returns, copy while a provisional/final answer is written). The lifecycle sub builds request / answer / copy-around-end-of-life histories, optionally with a flood of copies, a mid-life copy, and a mismatched request (line method != CSeq method, CSeq method of the base request or ACK for an INVITE) before or after the answer; in a quarter of them the base request is one no layer takes; advertised Via, Via decoration and arrival paths are drawn as in the history sub. A symbolic RFC 3261 17.1.3/17.2.3 reference model predicts for every message: absorbed / shown to layers / delivered to client transaction X / dropped. Non-trivial = two keys differing in exactly one component, a response with foreign branch or CSeq method, an arrival within 5 ms of a transaction's end, a mismatched request meeting a live server transaction with its branch/identifiers, a response arriving while the write of its request is in progress, a copy / ACK meeting the transaction the endpoint created for an untaken request, a copy / ACK arriving by another path than the first request, a response delivered to a client transaction that advertises a foreign sent-by, or a response delivered that arrived by another path; distinct by the event sequence.",
         assumptions: vec![
             "arrivals within 3 ms of a transaction's end, inside the INVITE-failure timeout window [64*T1, 64*T1+T2], and the non-INVITE Proceeding timeout are don't-cares: the comparison stops there",
-            "the application holds every request it is shown until it answers it, and drops ACKs at once",
+            "the application holds every request it takes until it answers it, and drops ACKs at once; a request it does not take is taken by no layer and answered by the endpoint in the same instant (final non-2xx status; INVITE: ACK awaited like after an application failure answer)",
+            "RFC 3261 17.1.3 / 17.2.3 name identifiers of the message only: a message with the identifiers of a live transaction reaches it whatever source address or local transport it arrives by, whatever sent-by the client transaction advertised (the peer echoes the Via, possibly adding received / rport), and whoever (application or endpoint) created the server transaction",
             "sent-by is not varied for RFC 3261 branches (statement silent)",
             "a request whose Request-Line method differs from its CSeq method never carries an ACK line, is dropped by the application at once when shown, and whether it is shown at all is not asserted; it must leave every transaction as it was",
             "a message injected in the same millisecond in which a slow write ends is a tie whose order is fixed by the run-time; nothing is asserted that depends on that order",
